@@ -366,6 +366,22 @@ def makeMatch (number pos line col : Nat) (c : Core) : Match :=
 def limitLast (last : Nat) (ms : List Match) : List Match :=
   if last != 0 then ms.drop (ms.length - last) else ms
 
+/-- how one attempt ended, as the scan loop sees it -/
+inductive Attempt where
+  | diverge                 -- VM fuel exhausted (model only)
+  | panic (tag : String)
+  | pfuel
+  | hit (c : Core)          -- SUCCESS with a non-empty match
+  | miss                    -- FAILED, or SUCCESS with an empty match
+deriving Inhabited
+
+def classify : Option Outcome → Attempt
+  | none => .diverge
+  | some (.panic t) => .panic t
+  | some .pfuel => .pfuel
+  | some (.success c) => if c.cur.length != 0 then .hit c else .miss
+  | some .fail => .miss
+
 /-- the outer loop of `findMatches` (after the `fix:` commit for skipped matches).
 `f` bounds the outer iterations (≤ |text| suffice), `vf` is the fuel of each attempt. -/
 def scan (pf vf : Nat) (prog : List Instr) (amt : Amount) (text : Bytes) :
@@ -373,26 +389,19 @@ def scan (pf vf : Nat) (prog : List Instr) (amt : Amount) (text : Bytes) :
   | 0, _, _, _, _, _ => none
   | f + 1, acc, mn, pos, line, col =>
     if !(amt.all || mn < amt.skip + amt.take) then some (.ok acc) else
-    match run pf prog text vf (initState pos line col) with
-    | none => none
-    | some (.panic t) => some (.panic t)
-    | some .pfuel => some .pfuel
-    | some o =>
-      let hit : Option Core := match o with
-        | .success c => if c.cur.length != 0 then some c else none
-        | _ => none
-      match hit with
-      | some c =>
-        let acc' := if mn ≥ amt.skip then
-            limitLast amt.last (acc ++ [makeMatch (mn + 1) pos line col c])
-          else acc
-        if c.pos ≥ text.length then some (.ok acc') else scan pf vf prog amt text f acc' (mn + 1) c.pos c.line c.col
-      | none =>
-        match readAt text pos 1 with
-        | [b] =>
-          let (line', col') := if b = nl then (line + 1, 1) else (line, col + 1)
-          if pos + 1 ≥ text.length then some (.ok acc) else scan pf vf prog amt text f acc mn (pos + 1) line' col'
-        | _ => some (.panic "WOW THAT IS NOT GOOD :(")
+    match classify (run pf prog text vf (initState pos line col)) with
+    | .diverge => none
+    | .panic t => some (.panic t)
+    | .pfuel => some .pfuel
+    | .hit c =>
+      let acc' := if mn ≥ amt.skip then limitLast amt.last (acc ++ [makeMatch (mn + 1) pos line col c]) else acc
+      if c.pos ≥ text.length then some (.ok acc') else scan pf vf prog amt text f acc' (mn + 1) c.pos c.line c.col
+    | .miss =>
+      match readAt text pos 1 with
+      | [b] =>
+        let (line', col') := if b = nl then (line + 1, 1) else (line, col + 1)
+        if pos + 1 ≥ text.length then some (.ok acc) else scan pf vf prog amt text f acc mn (pos + 1) line' col'
+      | _ => some (.panic "WOW THAT IS NOT GOOD :(")
 
 /-- `findMatches` -/
 def findMatches (pf vf : Nat) (prog : List Instr) (amt : Amount) (text : Bytes) : Option (Res (List Match)) :=
